@@ -74,6 +74,10 @@ func scenariosFor(prop string) []scn {
 		// dead-lettering and the nack window must follow source order, not arrival order
 		both(flowParams{Sources: 1, Records: 2, Batch: 1, Dests: 1, AckMenu: okNack, Procs: []procParam{{ID: "pp", Kinds: []string{"p", "e"}}}}, 2, 3)
 		both(flowParams{Sources: 1, Records: 2, Batch: 1, Dests: 1, AckMenu: okNack, Window: 2, Thresh: 1, Procs: []procParam{{ID: "pp", Kinds: []string{"p", "e"}}}}, 2, 3)
+		// a record is split and one of its pieces is split again by a later processor (split, then clone): the original is
+		// acknowledged once all leaves are through, the records behind it afterwards
+		both(flowParams{Sources: 1, Records: 3, Batch: 3, Dests: 1, AckMenu: onlyOK, Procs: []procParam{{ID: "pp", Kinds: []string{"p", "2", "p"}}, {ID: "pq", Kinds: []string{"p", "2", "p"}}}}, 1, 2)
+		both(flowParams{Sources: 1, Records: 2, Batch: 1, Dests: 2, AckMenu: onlyOK, Procs: []procParam{{ID: "pp", Parent: "d1", Kinds: []string{"2", "p"}}, {ID: "pq", Parent: "d1", Kinds: []string{"2", "p"}}}}, 1, 2)
 		// a destination that confirms one write in several responses (record by record / in two halves), rejections in the
 		// later ones
 		both(flowParams{Sources: 1, Records: 4, Batch: 4, Dests: 1, AckMenu: []string{"ok", "k:0011", "h:0011", "k:0110", "k:1001"}, Stop: ""}, 1, 2)
